@@ -5,3 +5,5 @@ FUNCTIONS = []
 STANDINS = ["dual"]
 ASSUMPTIONS = []
 EXPLANATION = ""
+LEVEL_TEXT = 'bounded stand-in only: dual of 18 closed and ~19 partial meshes against an independent dual construction (corner sets, ccw order, shared edges, padding, data carry-over, JIT vs py_func)'
+LEVEL_NOTE = 'no function under contract yet'
